@@ -22,10 +22,15 @@ type NCServer struct {
 	Hello      string // complete server hello including "]]>]]>"
 	Advertises map[string]bool
 	Echo       bool // transport echoes the client's bytes back (pty-style)
-	EchoCRLF   bool // echo converts LF to CRLF
+	// MissingLF: how many times a missing separator in front of a message is tolerated (the harness sets it when it
+	// made the client's write of that separator fail)
+	MissingLF int
+	EchoCRLF  bool // echo converts LF to CRLF
 
 	// Reply returns the bytes to send in reaction to a complete request (nil: nothing now).
 	Reply func(s *NCServer, r NCRequest) []byte
+	// ReplyMulti, when set, is used instead and may return several server messages (each ends a read boundary)
+	ReplyMulti func(s *NCServer, r NCRequest) [][]byte
 
 	Version       string // "" until the client hello was seen
 	ClientHello   string
@@ -34,11 +39,20 @@ type NCServer struct {
 	buf           []byte
 	dead          bool
 	hellos        int
+	bounds        []int
 }
 
 var msgIDRe = regexp.MustCompile(`message-id="(\d+)"`)
 
 const delim10 = "]]>]]>"
+
+// TakeBounds returns (and clears) the offsets in the last reaction at which server messages end.
+func (s *NCServer) TakeBounds() []int {
+	b := s.bounds
+	s.bounds = nil
+
+	return b
+}
 
 // Start implements Reactor.
 func (s *NCServer) Start() []byte { return []byte(s.Hello) }
@@ -116,8 +130,18 @@ func (s *NCServer) OnInput(b []byte) []byte {
 		req.Version = s.Version
 		s.Requests = append(s.Requests, *req)
 
-		if s.Reply != nil {
-			out = append(out, s.Reply(s, *req)...)
+		if s.ReplyMulti != nil {
+			for _, rep := range s.ReplyMulti(s, *req) {
+				if len(rep) > 0 {
+					out = append(out, rep...)
+					s.bounds = append(s.bounds, len(out))
+				}
+			}
+		} else if s.Reply != nil {
+			if rep := s.Reply(s, *req); len(rep) > 0 {
+				out = append(out, rep...)
+				s.bounds = append(s.bounds, len(out)) // a server message ends here: no read carries bytes beyond it
+			}
 		}
 	}
 
@@ -139,7 +163,9 @@ func (s *NCServer) next10() *NCRequest {
 		lead++
 	}
 
-	if lead != 1 {
+	if lead == 0 && s.MissingLF > 0 {
+		s.MissingLF--
+	} else if lead != 1 {
 		s.violation("1.0: %d line feeds between messages (the previous message must be followed by exactly one return)", lead)
 	}
 
@@ -148,6 +174,11 @@ func (s *NCServer) next10() *NCRequest {
 
 // 1.1: strict RFC 6242: LF '#' size LF data ... LF '#' '#' LF, messages back to back.
 func (s *NCServer) next11() *NCRequest {
+	if len(s.buf) > 0 && s.buf[0] == '#' && s.MissingLF > 0 {
+		s.MissingLF--
+		s.buf = append([]byte("\n"), s.buf...)
+	}
+
 	b := s.buf
 	pos := 0
 
